@@ -98,22 +98,40 @@ ResidueCount(off, k, p, r) ==
 
 BkAddN(v, bk, i, n) == IF i < v.nb THEN [bk EXCEPT ![i] = WAddNat(@, n)] ELSE bk
 
-\* Checksum after k more bytes, by cycle detection on <<checksum, residue>>
-\* (at most 256 * p distinct states).
+\* First checksum byte after kW more periodic bytes (kW a word), starting at
+\* residue o = off % p.  One full period is a map F on bytes (the first
+\* checksum byte evolves on its own: c' = BMap(0, cur, prev, c)); kW div p
+\* periods are F iterated by repeated squaring, the remaining kW % p bytes
+\* are stepped.
+CkStep(v, c, pat, pos) ==
+    BMapOf(v, 0, pat[(pos % Len(pat)) + 1], pat[((pos + Len(pat) - 1) % Len(pat)) + 1], c)
+PeriodMap(v, pat, o) ==
+    FoldLeft(LAMBDA tab, t : [c \in 1..256 |-> CkStep(v, tab[c], pat, o + t)] \o <<>>,
+             [c \in 1..256 |-> c - 1] \o <<>>, [t \in 1..Len(pat) |-> t - 1])
+\* Byte maps as tuples (index c + 1).  `\\o <<>>` turns the lazily evaluated
+\* function constructor into a concrete tuple, so that the squarings below
+\* are computed once each (TLC would otherwise re-evaluate H[H[c]] recursively).
+MapCompose(A, Bm) == [c \in 1..256 |-> A[Bm[c] + 1]] \o <<>>
+MapIdentity == [c \in 1..256 |-> c - 1] \o <<>>
+WordBit(w, i) == IF i < HB THEN (w[2] \div (2 ^ i)) % 2 ELSE (w[1] \div (2 ^ (i - HB))) % 2
+\* F applied mW times, by repeated squaring over the bits of mW (least significant first)
+MapPower(F, mW) ==
+    FoldLeft(LAMBDA acc, i :
+                 [res |-> IF WordBit(mW, i) = 1 THEN MapCompose(acc.sq, acc.res) ELSE acc.res,
+                  sq  |-> MapCompose(acc.sq, acc.sq)],
+             [res |-> MapIdentity, sq |-> F],
+             [i \in 1..W |-> i - 1]).res
 RECURSIVE CkIterate(_, _, _, _, _, _)
 CkIterate(v, ck, pat, pos, n, dummy) ==
     IF n = 0 THEN ck
-    ELSE CkIterate(v, CkUpdate(v, ck, pat[(pos % Len(pat)) + 1], pat[((pos - 1) % Len(pat)) + 1]),
+    ELSE CkIterate(v, CkUpdate(v, ck, pat[(pos % Len(pat)) + 1], pat[((pos + Len(pat) - 1) % Len(pat)) + 1]),
                    pat, pos + 1, n - 1, dummy)
-RECURSIVE CkOrbit(_, _, _, _, _, _, _)
-CkOrbit(v, ck, pat, off, t, k, seen) ==
-    IF t = k THEN ck
-    ELSE LET key == <<ck[1], (off + t) % Len(pat)>> IN
-         IF key \in DOMAIN seen
-         THEN LET lambda == t - seen[key] IN
-              CkIterate(v, ck, pat, off + t, (k - t) % lambda, 0)
-         ELSE CkOrbit(v, CkUpdate(v, ck, pat[((off + t) % Len(pat)) + 1], pat[((off + t - 1) % Len(pat)) + 1]),
-                      pat, off, t + 1, k, seen @@ (key :> t))
+Ck1AfterPeriodic(v, c0, pat, o, kW) ==
+    LET p  == Len(pat)
+        c1 == MapPower(PeriodMap(v, pat, o), WDivSmall(kW, p))[c0 + 1]
+        RECURSIVE CkTail(_, _)
+        CkTail(c, t) == IF t = WModSmall(kW, p) THEN c ELSE CkTail(CkStep(v, c, pat, o + t), t + 1)
+    IN  CkTail(c1, 0)
 
 GenUpdatePeriodicClosed(v, g, pat, off, k) ==
     LET p  == Len(pat)
@@ -130,7 +148,7 @@ GenUpdatePeriodicClosed(v, g, pat, off, k) ==
         newTail == IF k >= 4 THEN PeriodicData(pat, off + k - 4, 4)
                    ELSE SubSeq(g.tail, k + 1, 4) \o PeriodicData(pat, off, k)
     IN  [g EXCEPT !.bk = bk2,
-                  !.ck = CkOrbit(v, g.ck, pat, off, 0, k, <<>>),
+                  !.ck = <<Ck1AfterPeriodic(v, g.ck[1], pat, off % p, WOfNat(k))>>,
                   !.len = WAddNat(g.len, k),
                   !.tail = newTail]
 
@@ -142,6 +160,50 @@ GenUpdatePeriodic(v, g, pat, off, k) ==
          IF PeriodicPre(v, g1, pat, off + 8, k - 8)
          THEN GenUpdatePeriodicClosed(v, g1, pat, off + 8, k - 8)
          ELSE GenUpdate(v, g, PeriodicData(pat, off, k))
+
+-----------------------------------------------------------------------------
+(* The same closed form with WIDE position and count, for multi-GiB        *)
+(* histories (C11): `off` and `n` are words, the length saturates, and the *)
+(* crossing delivery is truncated exactly as GenUpdate truncates it.       *)
+(* For three-byte checksums only the first byte (which evolves on its own) *)
+(* is computed; the caller takes the other two from the observation.       *)
+
+\* number of t in 0..n-1 with (off + t) % p = r, as a word
+ResidueCountW(offW, nW, p, r) ==
+    LET first == (((r - WModSmall(offW, p)) % p) + p) % p IN
+    IF WLe(nW, WOfNat(first)) THEN WZero
+    ELSE WInc(WDivSmall(WSub(WSub(nW, WOne), WOfNat(first)), p))
+
+BkAddW(v, bk, i, w) == IF i < v.nb THEN [bk EXCEPT ![i] = WAdd(@, w)] ELSE bk
+
+\* Preconditions: full tail holding the four stream bytes before `off`.
+PeriodicPreW(v, g, pat, offW) ==
+    /\ g.tailLen = 4
+    /\ g.tail = [i \in 1..4 |-> pat[((WModSmall(offW, Len(pat)) + 4 * Len(pat) - 5 + i) % Len(pat)) + 1]]
+
+GenUpdatePeriodicWide(v, g, pat, offW, nW, ckRest) ==
+    IF WLe(MaxGenLen, g.len) THEN g                                    \* ignored at the limit
+    ELSE
+    LET p     == Len(pat)
+        room  == WSub(MaxGenLen, g.len)
+        kW    == WMinOf(nW, room)                                      \* the crossing delivery is truncated
+        o     == WModSmall(offW, p)
+        win(r) == WindowBuckets(v, pat[((r - 4 + 4 * p) % p) + 1], pat[((r - 3 + 4 * p) % p) + 1],
+                                   pat[((r - 2 + 4 * p) % p) + 1], pat[((r - 1 + 4 * p) % p) + 1], pat[r + 1])
+        addRes(bk, r) ==
+            LET c == ResidueCountW(offW, kW, p, r)
+                ix == win(r) IN
+            BkAddW(v, BkAddW(v, BkAddW(v, BkAddW(v, BkAddW(v, BkAddW(v, bk, ix[1], c), ix[2], c),
+                                                 ix[3], c), ix[4], c), ix[5], c), ix[6], c)
+        endOff == o + WModSmall(kW, p)                                 \* position after the last byte, mod p (+ o)
+        c1 == Ck1AfterPeriodic(v, g.ck[1], pat, o, kW)
+    IN  [g EXCEPT !.bk = FoldLeft(addRes, g.bk, [r \in 1..p |-> r - 1]),
+                  !.ck = IF v.ckLen = 1 THEN <<c1>> ELSE <<c1>> \o ckRest,
+                  !.len = WAdd(g.len, kW),
+                  !.tail = IF WLe(WOfNat(4), kW)
+                           THEN [i \in 1..4 |-> pat[((endOff + 4 * p - 5 + i) % p) + 1]]
+                           ELSE SubSeq(g.tail, WNat(kW) + 1, 4)
+                                \o [i \in 1..WNat(kW) |-> pat[((o + i - 1) % p) + 1]]]
 
 -----------------------------------------------------------------------------
 (* The abstraction: the concrete state the reference assigns to the bytes  *)
